@@ -19,7 +19,7 @@ export QV_EVIDENCE_DIR="$(mktemp -d /tmp/qvmut-ev.XXXXXX)" QV_REPLAY_DIR="$(mkte
 for prop in ${PROPS//,/ }; do
   out="$(./check "$prop" "$TIER" 2>&1)"; rc=$?
   case $rc in
-    1) echo "MUTANT $(basename "$P") $prop caught: $(echo "$out" | grep -m1 'failed oracle' | cut -c1-220)";;
+    1) echo "MUTANT $(basename "$P") $prop caught: $(echo "$out" | grep -m1 'failed oracle\|violation in scenario' | cut -c1-220)";;
     0) echo "MUTANT $(basename "$P") $prop MISSED";;
     *) echo "MUTANT $(basename "$P") $prop broken(rc=$rc)"; echo "$out" | tail -5;;
   esac
